@@ -100,7 +100,7 @@ Theorem C13_onst_nonneg : forall fs0 c area lm n ep,
 Proof. intros fs0 c area lm n ep Hrs Hn. pose proof (dom_of_nonneg _ Hn). intros. eapply onst_rer_nonneg; eassumption. Qed.
 
 (** the full nesting 0 <= RER_onst <= RER_nrb <= RER holds for every building that exports no electricity;
-    with exported electricity it fails (known finding, see C13_nested_refuted) *)
+    with exported electricity it fails (known findings, see C13_nested_refuted and C13_nearby_negative_refuted) *)
 Theorem C13_nested_partial : forall fs0 c area lm n ep,
   reg_set fs0 -> nonneg_data (c_data c) -> wf n (c_data c) -> (0 < n)%nat ->
   energy_performance c fs0 0 area lm = Ok ep ->
@@ -140,6 +140,32 @@ Proof.
   - split; [|split]; apply Qc_is_canon; vm_compute; reflexivity.
 Qed.
 
+(** known finding (second mechanism): exported cogenerated electricity whose fuel is not a nearby carrier.  The nearby
+    perimeter subtracts the renewable resources of the exported electricity (step A export factor, derived from the fuel)
+    while the fuel itself is outside the perimeter: RER_nrb is negative.
+    20 kWh of lighting, 48 kWh cogenerated from 108 kWh of biofuel, 100 kWh of gas heating *)
+Definition ex_factors_bio : list Factor :=
+  match normalize_factors
+          [mkFactor ELECTRICIDAD RED SUMINISTRO STEP_A (mkRNC (qfrac 414 1000) (qfrac 1954 1000) (qfrac 331 1000)) [];
+           mkFactor GASNATURAL RED SUMINISTRO STEP_A (mkRNC (qfrac 5 1000) (qfrac 1190 1000) (qfrac 252 1000)) [];
+           mkFactor BIOCARBURANTE RED SUMINISTRO STEP_A (mkRNC (qfrac 1028 1000) (qfrac 85 1000) (qfrac 18 1000)) []]
+          default_red default_red with
+  | Ok fs => fs | Err _ => [] end.
+
+Example C13_reg_set_example_bio : reg_set ex_factors_bio.
+Proof. apply reg_setb_ok. vm_compute. reflexivity. Qed.
+
+Theorem C13_nearby_negative_refuted :
+  exists c ep, nonneg_data (c_data c) /\ energy_performance c ex_factors_bio 0 1 false = Ok ep /\
+    0 < rtot (t_we_b ep) /\ t_rer_onst ep = 0 /\ t_rer_nrb ep < 0.
+Proof.
+  exists (mkComponents [] [EUsed 0 ELECTRICIDAD ILU [qz 20] []; EUsed 0 BIOCARBURANTE COGEN [qz 108] [];
+                           EProd 0 EL_COGEN [qz 48] []; EUsed 0 GASNATURAL CAL [qz 100] []] (mkNeeds None None None)).
+  eexists. split; [|split; [vm_compute; reflexivity|]].
+  - apply nonneg_datab_ok. vm_compute. reflexivity.
+  - split; [|split]; [vm_compute; reflexivity|apply Qc_is_canon; vm_compute; reflexivity|vm_compute; reflexivity].
+Qed.
+
 Print Assumptions C13_rer_def.
 Print Assumptions C13_primary_energy_nonneg.
 Print Assumptions C13_rer_range.
@@ -148,3 +174,4 @@ Print Assumptions C13_onst_nonneg.
 Print Assumptions C13_nested_partial.
 Print Assumptions C13_rer_zero_total.
 Print Assumptions C13_nested_refuted.
+Print Assumptions C13_nearby_negative_refuted.
